@@ -317,6 +317,10 @@ def sm_getattr(ex, path, obj, name, default, node):
             rs = CLASSES["BoundEvent"].ctor(ex, p, CallArgs([], {"id": name, "name": name, "_sm": obj}), node)
             out += rs
             continue
+        # Looking an arbitrary name up on the machine is already "invoking an attribute": a property (or any other
+        # descriptor, or __getattr__) of that name runs its getter.  Only declared event names may be looked up.
+        ex.run.oblige(p, "call", f"C13|a-name-that-is-not-a-declared-event-is-never-looked-up-on-the-machine@{getattr(node, 'lineno', 0)}",
+                      z3.BoolVal(False))
         for p2, has in ex.branch(p, HAS_ATTR(name.e)):
             if has:
                 v = ATTR_VAL(name.e)
